@@ -822,8 +822,8 @@ def run(chk, arim, rng, quick):
     import arim.ray  # noqa: F401
     scale = 1 if quick else 10
     plan = list(fixed_scenes())
-    plan += [gen_valid(rng) for _ in range(150 * scale)]
-    plan += [gen_narrow(rng) for _ in range(3 * scale)]
+    plan += [gen_valid(rng) for _ in range(260 * scale)]
+    plan += [gen_narrow(rng) for _ in range(5 * scale)]
     for faults, cnt in (("iface-flag-int", 8), ("iface-frames-count", 8), ("rays-times-ndim", 5), ("rays-interior-ndim", 5),
                         ("rays-shape", 8), ("rays-numsets", 6), ("rays-interior-dtype", 8), ("rays-times-dtype", 6),
                         ("rays-empty-path", 4), ("raygeom-identity", 8), ("raygeom-length", 6), ("raygeom-permuted", 4),
@@ -904,7 +904,7 @@ def run(chk, arim, rng, quick):
 
     # ---- table cases ------------------------------------------------------------------------------------------
     tlits, tinfos = [], []
-    for op, cnt in ((0, 25), (1, 25), (2, 30), (3, 20), (4, 40)):
+    for op, cnt in ((0, 40), (1, 40), (2, 50), (3, 30), (4, 60)):
         for _ in range(cnt * scale):
             lit, info = gen_table_case(rng, arim, op)
             tlits.append(lit)
